@@ -61,6 +61,10 @@ def never_none(x):
         while isinstance(c, Phi) and len(c.alts) == 1:
             c = c.alts[0][0]
         return isinstance(c, Call) and c.fn in ('range', 'enumerate', 'zip', 'os.listdir')
+    if isinstance(x, ExtRef):
+        from .prims import BUILTIN_NAMES              # a builtin callable (str, len ...)
+        return x.qualname in BUILTIN_NAMES and x.qualname not in ('NotImplemented',
+                                                                  'Ellipsis')
     return isinstance(x, (Index, Bin))
 
 
